@@ -22,6 +22,8 @@ pub struct RustDocument {
     /// nodes the importing document had already read when this (imported) document was started;
     /// they can be referred to, but they are not part of this document
     pub(crate) known_nodes: Vec<Rc<RustNode>>,
+    /// forward references that are being resolved (name, namespace, kind), innermost last
+    pub(crate) resolving: Vec<(String, Option<String>, ComponentKind)>,
     pub(crate) soap_messages: Vec<Rc<SoapMessage>>,
     pub(crate) soap_ports: Vec<Rc<SoapPort>>,
     pub(crate) soap_bindings: Vec<Rc<SoapBinding>>,
@@ -74,6 +76,7 @@ impl RustDocument {
             current_target_namespace: None,
             nodes: Vec::new(),
             known_nodes: Vec::new(),
+            resolving: Vec::new(),
             soap_messages: Vec::new(),
             soap_ports: Vec::new(),
             soap_bindings: Vec::new(),
@@ -176,6 +179,23 @@ impl RustDocument {
         Some(alt_node.into())
     }
 
+    /// Does a global component of that name, namespace and kind exist — read already, or declared
+    /// anywhere in the XML file of `start_node`? Unlike `find_node_by_xml_name` this never builds
+    /// the component, so it can be asked about a component that is being built.
+    pub fn global_component_exists<'n>(
+        &self,
+        start_node: &Node<'n, 'n>,
+        xml_name: &str,
+        namespace: Option<&Namespace>,
+        kind: ComponentKind,
+    ) -> bool {
+        self.nodes.iter().chain(self.known_nodes.iter()).any(|node| {
+            node.rust_type.xml_name().is_some_and(|n| n == xml_name)
+                && node.in_namespace.as_deref() == namespace
+                && kind.matches_type(&node.rust_type)
+        }) || find_global_component_in_xml_doc(start_node, xml_name, namespace, kind, self).is_some()
+    }
+
     pub fn find_message_by_xml_name(&self, xml_name: &str, _namespace: Option<&Namespace>) -> Option<&Rc<SoapMessage>> {
         self.soap_messages.iter().find(|msg| msg.xml_name == xml_name)
     }
@@ -228,49 +248,63 @@ fn create_mod_name_for_namespace(abbreviation: &str) -> String {
     format!("mod_{abbreviation}")
 }
 
-fn try_to_find_node_by_xml_name_in_xml_doc<'n>(
-    start_node: &'n Node<'n, 'n>,
+/// The global component (a child of a schema element) of the wanted kind and namespace whose name is
+/// `xml_name`, searched in the whole XML file of `start_node` in document order. A local element, an
+/// attribute declaration or a message part that carries the same name is not a candidate.
+fn find_global_component_in_xml_doc<'n>(
+    start_node: &Node<'n, 'n>,
     xml_name: &str,
     namespace: Option<&Namespace>,
     kind: ComponentKind,
-    doc: &mut RustDocument,
-) -> WriterResult<RustNode> {
+    doc: &RustDocument,
+) -> Option<Node<'n, 'n>> {
     // get to the root of the document from the start node
     let mut start_node = *start_node;
     while let Some(parent) = start_node.parent() {
         start_node = parent;
     }
 
-    // iterate over all subsequent nodes in the XML tree to find the node with the given name
-    for node in start_node.descendants() {
-        if node.is_element() {
-            // only a global component (a child of a schema) of the wanted kind and namespace can
-            // be meant: not a local element, attribute or message part that carries the same name
-            let Some(schema) = node.parent().filter(|p| p.tag_name().name() == "schema") else {
-                continue;
-            };
-            if !kind.matches_tag(node.tag_name().name()) {
-                continue;
-            }
-            if let (Some(namespace), Some(schema_namespace)) = (namespace, schema.attribute("targetNamespace")) {
-                if namespace.namespace != schema_namespace {
-                    continue;
-                }
-            }
-
-            // do a quick check on the name of the node, so we can skip the more expensive try_from_node
-            if let Some(node_name) = node.attribute("name") {
-                let (node_name, _node_namespace) = resolve_type(node_name, doc);
-                if node_name != xml_name {
-                    continue;
-                }
-
-                let rust_node = RustNode::try_from_node(node, doc)?;
-                return Ok(rust_node);
+    start_node.descendants().find(|node| {
+        if !node.is_element() {
+            return false;
+        }
+        let Some(schema) = node.parent().filter(|p| p.tag_name().name() == "schema") else {
+            return false;
+        };
+        if !kind.matches_tag(node.tag_name().name()) {
+            return false;
+        }
+        if let (Some(namespace), Some(schema_namespace)) = (namespace, schema.attribute("targetNamespace")) {
+            if namespace.namespace != schema_namespace {
+                return false;
             }
         }
+        node.attribute("name")
+            .is_some_and(|node_name| resolve_type(node_name, doc).0 == xml_name)
+    })
+}
+
+fn try_to_find_node_by_xml_name_in_xml_doc<'n>(
+    start_node: &Node<'n, 'n>,
+    xml_name: &str,
+    namespace: Option<&Namespace>,
+    kind: ComponentKind,
+    doc: &mut RustDocument,
+) -> WriterResult<RustNode> {
+    let node = find_global_component_in_xml_doc(start_node, xml_name, namespace, kind, doc)
+        .ok_or_else(|| WriterError::NodeNotFound(xml_name.to_string()))?;
+
+    // a component that is being built right now cannot be built again: the definitions refer to
+    // each other in a cycle (a type that extends itself, directly or through other types)
+    let key = (xml_name.to_string(), namespace.map(|ns| ns.namespace.clone()), kind);
+    if doc.resolving.contains(&key) {
+        return Err(WriterError::InvalidReference);
     }
-    Err(WriterError::NodeNotFound(xml_name.to_string()))
+
+    doc.resolving.push(key);
+    let rust_node = RustNode::try_from_node(node, doc);
+    doc.resolving.pop();
+    rust_node
 }
 
 impl<W> WriteXml<W> for RustDocument
